@@ -25,6 +25,16 @@ def pools(ch):
                 seen.add(key); pool.append(c)
             if len(pool) >= size:
                 break
+        if name.split(":")[0] == "opensessionrsp":
+            # always in the pool: successful responses naming concrete algorithms and responses with wildcard payloads
+            # (payload length 0) in each position and in all three, so that every (concrete, wildcard) order occurs
+            def osr(algs):
+                b = bytes([rng.randrange(256), 0, rng.randrange(6), 0]) + bytes(rng.randrange(256) for _ in range(8))
+                for t, a in enumerate(algs):
+                    b += bytes([t, 0, 0, 0 if a is None else 8, 0 if a is None else a, 0, 0, 0])
+                return b
+            pool = pool[:max(4, size - 8)] + [osr(x) for x in ((3, 4, 1), (1, 1, 1), (2, 2, 1), (None, None, None), (None, 4, 1),
+                                                               (3, None, 1), (3, 4, None), (None, None, 1))]
         out[name] = pool
     # AES: crafted with the key
     plains = [(bytes(rng.randrange(256) for _ in range(16)), L.aes_plain(rng)) for _ in range(size)]
